@@ -7,6 +7,7 @@ package internal
 // real NewBaseExporter chain (queue, batcher, obsreport, retry) built from instrumented copies.
 
 import (
+	"os"
 	"context"
 	"encoding/binary"
 	"encoding/json"
@@ -451,7 +452,13 @@ func c03Configs(quick bool) []*c03Cfg {
 }
 
 func TestVerif(t *testing.T) {
-	ctx := vr.Start("C03", "shutdown")
+	// the same harness serves C01 as its integration-level unit ("chain"): only the persistent-queue configurations, where
+	// the shutdown-classified error that makes the queue keep a request comes from the REAL retry sender
+	prop, unit := "C03", "shutdown"
+	if strings.Contains(os.Getenv("VERIF_PARAMS"), "prop=C01") {
+		prop, unit = "C01", "chain"
+	}
+	ctx := vr.Start(prop, unit)
 	if ctx == nil {
 		t.Skip("not driven")
 	}
@@ -479,6 +486,9 @@ func TestVerif(t *testing.T) {
 	for bound := startBound; bound <= maxBound; bound++ {
 	all := true
 	for ci, cf := range c03Configs(ctx.Quick()) {
+		if prop == "C01" && (!cf.Persistent || cf.CloseFails) {
+			continue
+		}
 		if ctx.Expired() {
 			all = false
 			break
